@@ -116,3 +116,16 @@ Theorem C19_text_section_name_refuted :
   write_table [("A", []); ("A", [])] = None.
 Proof. vm_compute. repeat split; reflexivity. Qed.
 Print Assumptions C19_text_section_name_refuted.
+
+(* ---- the guard of C19_environments_through_file is needed (boundary of the section namespace of the environment file):
+   an environment called `sandbox` is written as [ENV-SANDBOX], read back under the reserved name SANDBOX and removed with it;
+   two environments whose names differ by case only share one section name and the file cannot be written *)
+Require Import V.Dosini.Envs V.Dosini.EnvsProofs.
+Theorem C19_environment_named_sandbox_refuted :
+  exists r, root_via_file r <> Some (upper_names r) /\ root_via_file r = Some (mkRoot [("ENVA", [])] [] []).
+Proof. exists (mkRoot [("sandbox", [("X", "1")]); ("envA", [])] [] []). split; [vm_compute; discriminate|exact sandbox_name_refuted]. Qed.
+Print Assumptions C19_environment_named_sandbox_refuted.
+Theorem C19_environment_names_ignoring_case_refuted :
+  exists r, root_via_file r = None.
+Proof. exists (mkRoot [("envA", [("X", "1")]); ("ENVa", [])] [] []). exact same_name_ignoring_case_refuted. Qed.
+Print Assumptions C19_environment_names_ignoring_case_refuted.
